@@ -5,6 +5,7 @@
 mod civil;
 mod common;
 mod cron;
+mod tz;
 mod gens;
 mod arith;
 mod c01;
@@ -20,6 +21,9 @@ fn run_input(inp: &Input) -> Obs {
         return o;
     }
     if let Some(o) = cron::run(inp) {
+        return o;
+    }
+    if let Some(o) = tz::run(inp) {
         return o;
     }
     panic!("unknown op {}", inp.op);
@@ -50,6 +54,8 @@ fn main() {
                 "C15" => gens::gen_c15(&mut g, tier),
                 "C16" => cron::gen_c16(&mut g, tier),
                 "C17" => cron::gen_c17(&mut g, tier),
+                "C18" => tz::gen_c18(&mut g, tier),
+                "C19" => tz::gen_c19(&mut g, tier),
                 _ => {
                     eprintln!("unknown property {}", prop);
                     std::process::exit(2);
